@@ -231,7 +231,10 @@ pub struct Rans64Encoder<P: ParallelVariant> {
 impl<P: ParallelVariant> Rans64Encoder<P> {
     /// Create encoder from symbol frequencies
     pub fn new(frequencies: &[u32; 256]) -> Result<Self> {
-        let total_freq: u32 = frequencies.iter().sum();
+        let total_freq = frequencies
+            .iter()
+            .try_fold(0u32, |acc, &freq| acc.checked_add(freq))
+            .ok_or_else(|| ZiporaError::invalid_data("Symbol frequency total overflows u32"))?;
         if total_freq == 0 {
             return Ok(Self {
                 symbols: [Rans64Symbol::new(0, 0); 256],
@@ -550,7 +553,9 @@ impl<P: ParallelVariant> Rans64Decoder<P> {
 
         let mut state = Rans64State::from_state(initial_state);
         let mut pos = data_len - 8;
-        let mut result = Vec::with_capacity(output_length);
+        // `output_length` may come from an untrusted frame header: reserve a bounded
+        // amount up front and let the vector grow as symbols are actually decoded
+        let mut result = Vec::with_capacity(output_length.min(1 << 20));
 
         for _ in 0..output_length {
             let symbol = self.decode_symbol(&mut state, encoded_data, &mut pos)?;
